@@ -940,3 +940,81 @@ Lemma rdf_of_tree_index fx tn root g i :
 Proof.
   unfold rdf_of_tree. cbn [In]. rewrite rdf_children_index. split; [intros [E|H]; [discriminate|exact H]|intros H; now right].
 Qed.
+
+(* ---------------------------------------------- Mermaid lines as text *)
+From NTGen Require Import Generated.
+From Coq Require DecimalNat.
+
+Definition S_arrow : text := [32; 45; 45; 62; 32]%Z.            (* space dash dash gt space *)
+Definition S_tarrow1 : text := [45; 45; 32; 34]%Z.              (* dash dash space quote *)
+Definition S_tarrow2 : text := [34; 32; 45; 45; 62]%Z.          (* quote space dash dash gt *)
+
+(* obligations on the values generated from nutree/mermaid.py *)
+Lemma edge_template_tokens :
+  tokenize MERMAID_DEFAULT_EDGE_TEMPLATE = Some [TField F_from_id; TLit S_arrow; TField F_to_id].
+Proof. vm_compute. reflexivity. Qed.
+
+Lemma typed_edge_template_tokens :
+  tokenize MERMAID_DEFAULT_EDGE_TEMPLATE_TYPED
+  = Some [TField F_from_id; TLit S_tarrow1; TField F_kind; TLit S_tarrow2; TField F_to_id].
+Proof. vm_compute. reflexivity. Qed.
+
+Lemma node_template_tokens : tokenize MERMAID_DEFAULT_NODE_TEMPLATE = Some [TField F_node_name].
+Proof. vm_compute. reflexivity. Qed.
+
+Lemma mer_edge_text_plain i j : mer_edge_text (Some i, Some j, None) = Some (dec i ++ S_arrow ++ dec j).
+Proof.
+  unfold mer_edge_text, format_with. rewrite edge_template_tokens.
+  cbn. now rewrite app_nil_r.
+Qed.
+
+Lemma mer_edge_text_typed i j k :
+  mer_edge_text (Some i, Some j, Some k) = Some (dec i ++ S_tarrow1 ++ k ++ S_tarrow2 ++ dec j).
+Proof.
+  unfold mer_edge_text, format_with. rewrite typed_edge_template_tokens.
+  cbn. now rewrite app_nil_r.
+Qed.
+
+Lemma mer_node_text_plain i nm :
+  mer_node_text (i, nm, false) = Some (dec i ++ [40; 34]%Z ++ nm ++ [34; 41]%Z).
+Proof.
+  unfold mer_node_text, format_with. rewrite node_template_tokens. cbn. now rewrite app_nil_r.
+Qed.
+
+(* decimal rendering can be read back *)
+Fixpoint text_uint (t : text) : option Decimal.uint :=
+  match t with
+  | [] => Some Decimal.Nil
+  | c :: r =>
+      match text_uint r with
+      | None => None
+      | Some d =>
+          if Z.eqb c 48 then Some (Decimal.D0 d) else if Z.eqb c 49 then Some (Decimal.D1 d)
+          else if Z.eqb c 50 then Some (Decimal.D2 d) else if Z.eqb c 51 then Some (Decimal.D3 d)
+          else if Z.eqb c 52 then Some (Decimal.D4 d) else if Z.eqb c 53 then Some (Decimal.D5 d)
+          else if Z.eqb c 54 then Some (Decimal.D6 d) else if Z.eqb c 55 then Some (Decimal.D7 d)
+          else if Z.eqb c 56 then Some (Decimal.D8 d) else if Z.eqb c 57 then Some (Decimal.D9 d)
+          else None
+      end
+  end.
+Definition undec (t : text) : option nat := option_map Nat.of_uint (text_uint t).
+
+Lemma text_uint_text d : text_uint (uint_text d) = Some d.
+Proof. induction d; cbn [uint_text text_uint]; try reflexivity; rewrite IHd; reflexivity. Qed.
+
+Lemma undec_dec n : undec (dec n) = Some n.
+Proof. unfold undec, dec. rewrite text_uint_text. cbn. f_equal. apply DecimalNat.Unsigned.of_to. Qed.
+
+Lemma dec_inj a b : dec a = dec b -> a = b.
+Proof. intros E. pose proof (undec_dec a) as A. rewrite E, undec_dec in A. now injection A. Qed.
+
+(* every line of the edge section is well-formed text (no KeyError, no
+   unknown field) *)
+Lemma mer_edge_text_defined u a s e : In e (mer_edges u a s) -> mer_edge_text e <> None.
+Proof.
+  intros He. pose proof (mer_edges_decode u a s) as D.
+  assert (H : In (mer_decode (mer_map u a s) e) (map (mer_decode (mer_map u a s)) (mer_edges u a s))) by now apply in_map.
+  rewrite D in H. apply in_map_iff in H. destruct H as [[[x y] l] [E _]]. cbn [fst snd] in E.
+  destruct e as [[[i|] [j|]] l']; cbn [mer_decode obind] in E; try discriminate.
+  destruct l' as [k|]; [rewrite mer_edge_text_typed|rewrite mer_edge_text_plain]; discriminate.
+Qed.
